@@ -47,14 +47,14 @@ func init() {
 	}
 	core.Register(&core.Prop{
 		ID: "C18",
-		Rule: "case = one generated OSM XML document of 5-80 elements (nodes inside / outside / on the edge of the box, ways sharing nodes, relations of nodes, ways and relations including chains and cycles, optional dangling references; element order canonical, shuffled or ways-first) extracted with KeepTags, KeepBounds and KeepAll under ~12 schedules each: GOMAXPROCS 1/2/4/16 free running, hook-driven perturbation (Gosched / microsecond sleeps at the schedule points) and forced adversarial windows (a referent's store is held at its schedule point until the object that depends on it has been judged); " +
+		Rule: "case = one generated OSM XML document of 5-80 elements (a quarter: tiny documents of 2-6 nodes, 1-2 ways, at most one relation) (nodes inside / outside / on the edge of the box, ways sharing nodes, relations of nodes, ways and relations including chains and cycles, optional dangling references; element order canonical, shuffled or ways-first) extracted with KeepTags, KeepBounds and KeepAll under ~12 schedules each: GOMAXPROCS 1/2/4/16 free running, hook-driven perturbation (Gosched / microsecond sleeps at the schedule points) and forced adversarial windows (a referent's store is held at its schedule point until the object that depends on it has been judged; in the handshake variant that object is then held at the end of its judgement until the storing worker is returning); " +
 			"oracle = sequential least-fixpoint model of the document (keep function evaluated against the growing set, references followed transitively); also Check(), run-to-run equality, and Filter laws (equals the model on its input, idempotent, subset, closed); the whole workload is repeated under the Go race detector; thorough adds the bundled Honolulu PBF with a model computed from a direct scan; " +
 			"an evaluation is one extraction (or Filter) judged; non-trivial = extraction during which an object was judged while one of its referents was between judgement and storage (window observed on the hook trace); distinct by hook-trace hash",
 		Assumptions: []string{"schedules are sampled and forced at hook points, not exhausted", "the 2 s safety release of a forced window only protects the harness; when it fires the run is counted as 'window not forced'", "generated documents are small on purpose (the window is one object wide)"},
 		Phases:      phases,
 		Run:         run,
 		Floors: func(t string) map[string]int64 {
-			return map[string]int64{"runs.free": 1000, "runs.perturbed": 300, "runs.forced": 200, "window.forced_observed": 100, "keep.tags": 100, "keep.bounds": 100, "keep.all": 100,
+			return map[string]int64{"runs.free": 1000, "runs.perturbed": 300, "runs.forced": 200, "window.forced_observed": 100, "window.handshake_runs": 100, "doc.tiny": 30, "keep.tags": 100, "keep.bounds": 100, "keep.all": 100,
 				"order.shuffled": 20, "order.ways_first": 10, "order.reverse_cascade": 10, "doc.cascade": 30, "doc.relation_cycle": 10, "doc.dangling": 3, "filter.checked": 100, "gomaxprocs.16": 50, "format.pbf": 300, "format.xml": 1000}
 		},
 	})
@@ -153,6 +153,13 @@ func genDoc(c *core.Ctx, r *gen.R) *doc {
 		c.Count("doc.ids_overlap_across_types")
 	}
 	nn := r.IntRange(2, 30)
+	tiny := r.Chance(0.25)
+	if tiny {
+		// very small documents (2-6 nodes, 1-2 ways, at most one relation): one racing pair is
+		// then the only thing that happens in a pass, so nothing else can mask a lost update
+		nn = r.IntRange(2, 6)
+		c.Count("doc.tiny")
+	}
 	for i := 0; i < nn; i++ {
 		n := dnode{ID: int64(1 + i), Tags: randTags(r, 0.15)}
 		switch r.Intn(5) {
@@ -168,6 +175,9 @@ func genDoc(c *core.Ctx, r *gen.R) *doc {
 	}
 	nw := r.IntRange(0, 15)
 	cascade := r.Chance(0.45)
+	if tiny {
+		nw, cascade = r.IntRange(1, 2), false
+	}
 	var cascadeWays []int
 	if cascade {
 		// a chain that KeepBounds must follow outwards: way A straddles the box (one node
@@ -200,6 +210,9 @@ func genDoc(c *core.Ctx, r *gen.R) *doc {
 		d.ways = append(d.ways, w)
 	}
 	nr := r.IntRange(0, 8)
+	if tiny {
+		nr = r.Intn(2)
+	}
 	cycle := false
 	for i := 0; i < nr; i++ {
 		rel := drel{ID: relBase + int64(i), Tags: randTags(r, 0.3)}
@@ -509,29 +522,44 @@ type event struct {
 type rule struct {
 	holdKind, awaitKind byte
 	holdID, awaitID     int64
+	// handshake: after the dependent object has been judged (its judge.end point, i.e. with the
+	// keep verdict in hand but before its worker has returned to the dispatch loop) it is itself
+	// held until the referent's worker has finished storing and is returning (the referent's
+	// judge.end point), plus a few hundred microseconds. The stretch between "verdict" and
+	// "back in the loop" of one worker then overlaps the whole store of the other.
+	handshake bool
 }
 
 type controller struct {
-	mu       sync.Mutex
-	trace    []event
-	rule     *rule
-	released chan struct{}
-	fired    bool // the hold was applied
-	awaited  bool // awaited event seen
-	timedOut bool
-	perturb  bool
-	seed     uint64
-	cnt      uint64
+	mu               sync.Mutex
+	trace            []event
+	rule             *rule
+	released         chan struct{}
+	holderDone       chan struct{} // closed at the held referent's judge.end (handshake rules)
+	holderDoneClosed bool
+	fired            bool // the hold was applied
+	awaited          bool // awaited event seen
+	timedOut         bool
+	perturb          bool
+	seed             uint64
+	cnt              uint64
 }
 
 func (ct *controller) hook(ev string, kind byte, id int64) {
 	ct.mu.Lock()
 	ct.trace = append(ct.trace, event{ev, kind, id})
-	var wait chan struct{}
+	var wait, wait2 chan struct{}
 	if rl := ct.rule; rl != nil {
+		if rl.handshake && ev == "judge.end" && kind == rl.holdKind && id == rl.holdID && ct.fired && !ct.holderDoneClosed {
+			ct.holderDoneClosed = true
+			close(ct.holderDone)
+		}
 		if ev == "judge.end" && kind == rl.awaitKind && id == rl.awaitID && !ct.awaited {
 			ct.awaited = true
 			close(ct.released)
+			if rl.handshake && ct.fired {
+				wait2 = ct.holderDone
+			}
 		}
 		if ev == "store.before" && kind == rl.holdKind && id == rl.holdID && !ct.fired && !ct.awaited {
 			ct.fired = true
@@ -539,6 +567,16 @@ func (ct *controller) hook(ev string, kind byte, id int64) {
 		}
 	}
 	ct.mu.Unlock()
+	if wait2 != nil {
+		select {
+		case <-wait2:
+			time.Sleep(300 * time.Microsecond)
+		case <-time.After(2 * time.Second):
+			ct.mu.Lock()
+			ct.timedOut = true
+			ct.mu.Unlock()
+		}
+	}
 	if wait != nil {
 		select {
 		case <-wait:
@@ -631,7 +669,7 @@ func rules(d *doc, r *gen.R) []rule {
 		for _, n := range w.Nodes {
 			pn, ok := pos[[2]int64{'n', n}]
 			if ok && pn < pos[[2]int64{'w', w.ID}] {
-				out = append(out, rule{'n', 'w', n, w.ID})
+				out = append(out, rule{holdKind: 'n', awaitKind: 'w', holdID: n, awaitID: w.ID})
 			}
 		}
 	}
@@ -639,7 +677,7 @@ func rules(d *doc, r *gen.R) []rule {
 		for _, m := range rl.Members {
 			pm, ok := pos[[2]int64{int64(m.Type), m.Ref}]
 			if ok && pm < pos[[2]int64{'r', rl.ID}] {
-				out = append(out, rule{m.Type, 'r', m.Ref, rl.ID})
+				out = append(out, rule{holdKind: m.Type, awaitKind: 'r', holdID: m.Ref, awaitID: rl.ID})
 			}
 		}
 	}
@@ -708,6 +746,9 @@ func run(c *core.Ctx, idx int) {
 		for _, rl := range rules(d, r) {
 			rl := rl
 			scheds = append(scheds, schedule{procs: 2, mode: "forced", rule: &rl}, schedule{procs: 4, mode: "forced", rule: &rl})
+			hs := rl
+			hs.handshake = true
+			scheds = append(scheds, schedule{procs: 2, mode: "forced", rule: &hs})
 		}
 		if race {
 			scheds = scheds[1:] // GOMAXPROCS 1 cannot race
@@ -733,7 +774,7 @@ func run(c *core.Ctx, idx int) {
 			}
 			c.Count("runs." + sc.mode)
 			c.Count(fmt.Sprintf("gomaxprocs.%d", sc.procs))
-			ct := &controller{rule: sc.rule, released: make(chan struct{}), perturb: sc.mode == "perturbed", seed: sc.seed}
+			ct := &controller{rule: sc.rule, released: make(chan struct{}), holderDone: make(chan struct{}), perturb: sc.mode == "perturbed", seed: sc.seed}
 			gosm.SetVerifHook(ct.hook)
 			prev := runtime.GOMAXPROCS(sc.procs)
 			var data *gosm.Data
@@ -741,6 +782,10 @@ func run(c *core.Ctx, idx int) {
 			detail := map[string]interface{}{"document": string(xmlBytes), "keep": k.kind, "keep_values": k.vals, "element_order": d.desc, "gomaxprocs": sc.procs, "schedule": sc.mode, "model": want.String()}
 			if sc.rule != nil {
 				detail["forced_window"] = fmt.Sprintf("hold store of %c%d until %c%d has been judged", sc.rule.holdKind, sc.rule.holdID, sc.rule.awaitKind, sc.rule.awaitID)
+				if sc.rule.handshake {
+					detail["forced_window"] = detail["forced_window"].(string) + fmt.Sprintf(", then hold %c%d at the end of its judgement until the worker storing %c%d is returning", sc.rule.awaitKind, sc.rule.awaitID, sc.rule.holdKind, sc.rule.holdID)
+					c.Count("window.handshake_runs")
+				}
 			}
 			if sc.pbf {
 				detail["format"] = "pbf (same document, one block per run of same-kind elements)"
